@@ -108,7 +108,26 @@ pub fn run_policy(ctx: &mut Ctx, scn: &StoreScn) {
     let bound_ns = (interval_ns as f64 * (1.0 + cfg.jitter)).ceil() as u64 + 1_000;
     // no client action from here on: only let time pass
     let span = 3 * bound_ns + 5_000_000;
-    ctx.sim.sleep_thread(ctx.me, span);
+    // in half of the runs whose trigger is exceeded the second burst of writes (below) comes
+    // RIGHT AFTER the first background merge instead of long after it: the bound of one check
+    // interval plus jitter holds just the same for a trigger that is crossed while a merge has
+    // only just finished. Time then passes in small steps until that merge is seen.
+    let burst_right_after_merge = predicate && ctx.sim.with_stream("c18-burst", |r| r.one_in(2));
+    if burst_right_after_merge {
+        let step = (bound_ns / 16).max(1_000);
+        let mut slept = 0u64;
+        while slept < span {
+            ctx.sim.sleep_thread(ctx.me, step);
+            slept += step;
+            let merged = fsim::with_fs(ctx.sim, |fs| fs.log.iter().any(|r| r.seq > seq_open && r.res >= 0 && r.op == IoOp::Create && fs.path_name(r.path).ends_with(".hint")));
+            if merged {
+                ctx.sim.probe("second_burst_right_after_a_background_merge");
+                break;
+            }
+        }
+    } else {
+        ctx.sim.sleep_thread(ctx.me, span);
+    }
     let t_end = ctx.sim.now_ns();
     // observations
     let (hint_creates, fsyncs, data_creates): (Vec<u64>, Vec<(u64, String)>, Vec<(u64, String)>) = fsim::with_fs(ctx.sim, |fs| {
